@@ -1095,18 +1095,26 @@ def k3_prims():
         return es[kk][1] if kk < len(es) else fresh(ANY, 'no_errorinfo')
 
     def token_at_eval(I, a, k, n):
-        """value of __token when probe eN was evaluated (last occurrence)"""
+        """value of __token when probe eN was evaluated (last evaluation; token_at_eval(N, j): the
+        j-th evaluation)"""
         nn = _c(a[0])
         evs = [ev for ev in I.ghost['T'] if ev[0] == 'eval' and ev[1] == nn]
+        if len(a) > 1:
+            j = _c(a[1])
+            return evs[j][2] if j < len(evs) else NONE
         return evs[-1][2] if evs else NONE
 
     def token_pos(I, a, k, n):
-        """source position recorded in the token table for the expression text eN"""
+        """source position recorded in the token table for the expression text eN (token_pos(N, j):
+        for its j-th occurrence in the template, in document order)"""
         name = 'e%d' % _c(a[0])
         # the token of the expression occurrence that contains this probe (for `a | b` and
         # prefixed expressions that is the whole TALES expression)
-        ps = [p for p, (txt, ln, col) in I.ghost['tokens'].items()
-              if re.search(r'\b%s\b' % name, txt)]
+        ps = sorted(p for p, (txt, ln, col) in I.ghost['tokens'].items()
+                    if re.search(r'\b%s\b' % name, txt))
+        if len(a) > 1:
+            j = _c(a[1])
+            return VInt(ps[j]) if j < len(ps) else VInt(-1)
         return VInt(ps[0]) if len(ps) == 1 else VInt(-1)
 
     return {f.__name__: (lambda I, a, k, n, f=f: f(I, a, k, n)) for f in
@@ -1231,7 +1239,16 @@ def schema_contracts(specs):
         # C12: whenever an expression is evaluated, __token is the position of exactly that
         # expression's text (so a failure is reported against the right expression)
         probes = sorted({int(m) for m in re.findall(r'\be(\d+)\b', s['text'])})
-        tok = ["evals(%d) == 0 or token_at_eval(%d) == token_pos(%d)" % (n, n, n) for n in probes]
+        tok = []
+        for n in probes:
+            cnt = len(re.findall(r'\be%d\b' % n, s['text']))
+            if cnt == 1:
+                tok.append("evals(%d) == 0 or token_at_eval(%d) == token_pos(%d)" % (n, n, n))
+            else:
+                # the same expression text written several times (evaluated in document order): every
+                # evaluation is announced with the position of ITS OWN occurrence
+                tok += ["evals(%d) <= %d or token_at_eval(%d, %d) == token_pos(%d, %d)" % (n, j, n, j, n, j)
+                        for j in range(cnt)]
         if s.get('no_token_posts'):
             tok = []
         s = dict(s, ensures=list(s.get('ensures', [])) + tok)
